@@ -1,11 +1,11 @@
 package main
 
 import (
-	"strconv"
 	"database/sql"
 	"encoding/json"
 	"fmt"
 	"os"
+	"strconv"
 	"strings"
 	"sync"
 	"time"
